@@ -182,7 +182,10 @@ fn gen_impl_delegation_trait_defs(
     trait_copy.ident = impl_trait_ident.clone();
     for trait_fn in trait_copy.fns.iter_mut() {
         // the delegation target trait only declares the methods
-        trait_fn.default_body = None;
+        if trait_fn.default_body.take().is_some() {
+            // without its body the method may only declare plain identifiers (and `_`) as parameters
+            crate::signature::fix_fn_param_idents(&mut trait_fn.entrait_sig.sig);
+        }
     }
 
     let no_mock_opts = Opts {
